@@ -11,8 +11,9 @@ DecOf == <<-15, -12, -9, -6, -3, 3, 6, 9>>
 VARIABLES kind, arr, lin
 vars == <<kind, arr, lin>>
 \* classes of the palette entries (two entries of each class that has a variable-size geometry)
-\* 1 and 15 have the SAME number of faces, 3 and 16 the SAME number of vertices - different geometry and excitation
-ClassOf(i) == CASE i \in {1, 2, 15} -> "TriangularMesh" [] i \in {3, 4, 16} -> "Polyline" [] i \in {5, 6} -> "CylinderSegment"
+\* 1 and 15 have the SAME number of faces, 3 and 16 the SAME number of vertices - different geometry and excitation;
+\* 17 and 18 are pyramids on the SAME base: same face count and identical leading facets
+ClassOf(i) == CASE i \in {1, 2, 15, 17, 18} -> "TriangularMesh" [] i \in {3, 4, 16} -> "Polyline" [] i \in {5, 6} -> "CylinderSegment"
                 [] i = 7 -> "Cuboid" [] i = 8 -> "Cylinder" [] i = 9 -> "Sphere" [] i = 10 -> "Tetrahedron"
                 [] i = 11 -> "Triangle" [] i = 12 -> "Circle" [] i = 13 -> "Dipole" [] i = 14 -> "Tetrahedron"
 Arrs == UNION {[1..n -> 1..NPal] : n \in 1..MaxLen}
